@@ -255,6 +255,26 @@ def rewrite_func_as_lambda(f: ast.FunctionDef) -> ast.Lambda:
     return ast.Lambda(args, ret.value)  # type: ignore
 
 
+def _free_names(node: ast.AST, bound: frozenset = frozenset()) -> set:
+    "The names `node` uses that no lambda or comprehension inside it binds"
+    if isinstance(node, ast.Name):
+        return set() if node.id in bound else {node.id}
+    if isinstance(node, (ast.ListComp, ast.SetComp, ast.GeneratorExp, ast.DictComp)):
+        gens = node.generators
+        inner = bound | {n.id for g in gens for n in ast.walk(g.target) if isinstance(n, ast.Name)}
+        out = _free_names(gens[0].iter, bound)  # evaluated in the enclosing scope
+        for g in gens[1:]:
+            out |= _free_names(g.iter, inner)
+        for e in [c for g in gens for c in g.ifs] + [
+            getattr(node, f) for f in ("elt", "key", "value") if hasattr(node, f)
+        ]:
+            out |= _free_names(e, inner)
+        return out
+    if isinstance(node, ast.Lambda):
+        bound = bound | {a.arg for a in node.args.args}
+    return set().union(*[_free_names(c, bound) for c in ast.iter_child_nodes(node)])
+
+
 class _mark_ignore_name(ast.NodeTransformer):
     def visit_Name(self, node: ast.Name) -> Any:
         new_node = cast(ast.Expr, ast.parse(node.id).body[0]).value
@@ -285,6 +305,10 @@ class _rewrite_captured_vars(ast.NodeTransformer):
                     lm = _rewrite_captured_vars(
                         global_getclosurevars(x), self._expanding + (x,)
                     ).visit(lm)
+                    # A name the helper still uses by name must not fall under a lambda parameter
+                    # or comprehension variable of the call site: then the call stays by name.
+                    if any(self.is_arg(n) for n in _free_names(lm)):
+                        return None
                 return lm
             except Exception:
                 return None
